@@ -115,7 +115,7 @@ class History(object):
             self.insitu.append(dict(prop=prop, clause=clause, site=site, detail=detail, seq=self.seq))
 
     # ------------------------------------------------------------------------------------------------------
-    def digest(self):
+    def digest(self, include_rng=True):
         h = hashlib.sha256()
         for c in self.calls:
             h.update(struct.pack('<qq', c.k, c.seq))
@@ -143,7 +143,8 @@ class History(object):
             h.update(('EXC:%s:%s' % (type(self.exc).__name__, self.exc_site)).encode())
         if self.stepcap is not None:
             h.update(b'STEPCAP')
-        h.update(repr(self.rng_end).encode())
+        if include_rng:
+            h.update(repr(self.rng_end).encode())
         return h.hexdigest()
 
     def path_signature(self):
@@ -349,7 +350,7 @@ class Env(object):
         kw = {}
         if scn['bounds'] is not None:
             b = scn['bounds']
-            dt = int if scn.get('x0_dtype') == 'int' and all(float(v).is_integer() for side in (b['lower'], b['upper']) if side for v in side) else float
+            dt = int if scn.get('x0_dtype') == 'int' and all(float(v).is_integer() and abs(v) < 2 ** 53 for side in (b['lower'], b['upper']) if side for v in side) else float
             lo = None if b['lower'] is None else np.array(b['lower'], dtype=dt)
             hi = None if b['upper'] is None else np.array(b['upper'], dtype=dt)
             kw['bounds'] = (lo, hi)
@@ -603,7 +604,7 @@ def _alarm(signum, frame):
     raise HarnessTimeout()
 
 
-def run_scenario(scn, probes=(), wall_guard=120):
+def run_scenario(scn, probes=(), wall_guard=600):
     """Run one scenario.  Pure function of (scn, code under test)."""
     import dfols
     H = History(scn)
